@@ -307,7 +307,7 @@ def witness_to_spec(kind, cfg, w, **extra):
             'default_models': cfg.get('default_models', False),
             'havoc_add': cfg.get('havoc_add', False),
             'model_states': list(cfg.get('model_states', (0, 0))),
-            'time_limit': 8, 'timeout_is_violation': True}
+            'time_limit': 20, 'timeout_is_violation': True}
     spec.update(extra)
     return spec
 
